@@ -101,7 +101,7 @@ def stopping_cases(draw, max_inner=10):
     g = draw(games.stopping_games(min_inner=2, max_inner=max_inner))
     if draw(st.integers(0, 3)) == 0:
         return dict(kind="solver", game=g, theta=draw(st.sampled_from(THETAS)))
-    return dict(kind="solve", game=g, prune=draw(st.booleans()))
+    return dict(kind="solve", game=g, prune=games.coin(draw))
 
 
 @st.composite
